@@ -346,7 +346,26 @@ def run_impl(c):
         out_t = torch.full(A0.shape, 7.0, dtype=tdt)
         kwargs["out"] = out_t
     res, err, op, w = None, None, None, []
+    # statement-level execution trace of `_psd_safe_cholesky` (line events of its frames), for the skeleton correspondence
+    import sys
+    from linear_operator.utils import cholesky as _cmod
+    core_code = getattr(getattr(_cmod, "_psd_safe_cholesky", None), "__code__", None)
+    exec_lines, core_frames = [], []
+
+    def _local(frame, event, arg):
+        if event == "line":
+            exec_lines.append(frame.f_lineno)
+        return _local
+
+    def _tracer(frame, event, arg):
+        if event == "call" and frame.f_code is core_code:
+            core_frames.append(frame.f_code.co_firstlineno)
+            return _local
+        return None
+
+    old_trace = sys.gettrace()
     torch.linalg.cholesky_ex = wrapped
+    sys.settrace(_tracer)
     try:
         for cx in ctxs:
             cx.__enter__()
@@ -383,9 +402,11 @@ def run_impl(c):
     except Exception as e:  # noqa: BLE001 - the class is the observation
         err = e
     finally:
+        sys.settrace(old_trace)
         torch.linalg.cholesky_ex = orig
     obs = dict(err=err, warns=list(w), records=records, raw=res, out_t=out_t,
-               A=A, A0=A0, Asaved=Asaved, ver0=ver0, enclosing=enclosing, enc0=enc0, op=op)
+               A=A, A0=A0, Asaved=Asaved, ver0=ver0, enclosing=enclosing, enc0=enc0, op=op,
+               exec_lines=exec_lines, core_frames=core_frames)
     return obs
 
 
@@ -667,6 +688,55 @@ def compare_model(c, obs, mo):
     return diffs
 
 
+# --------------------------------------------------------------------------------------------- skeleton correspondence
+SK_MAX = 12
+
+
+def sk_lines():
+    """driver lines asking for the role trace of every outcome kind / number of tries that can occur"""
+    keys = [("first", 0), ("nan", 0)] + [(o, k) for o in ("ok", "fail") for k in range(SK_MAX + 1)]
+    return keys, [f"sk {o} {k}" for o, k in keys]
+
+
+def executed_roles(obs, skeleton):
+    """roles of the skeleton statements the interpreter executed, in order (line events of the core's frame mapped through
+    the statement line numbers of the AST skeleton; consecutive repeats of one statement - multi-line calls - collapsed)"""
+    role_at = {ln: role for ln, _, role in skeleton}
+    seq, last = [], None
+    for ln in obs["exec_lines"]:
+        if ln in role_at:
+            if ln != last:
+                seq.append(role_at[ln])
+            last = ln
+        # lines of nested statements (`return L`, continuation lines of a call) are not skeleton statements
+    return seq
+
+
+def compare_skeleton(c, obs, mo, sktr, skeleton):
+    """executed statement order of the real function vs. the control flow of the Lean-pinned skeleton for the model's outcome"""
+    if not obs["core_frames"]:
+        # the function was not entered (1x1 operator shortcut): the model must not have called cholesky_ex either
+        return [] if mo.get("calls") == "0" else ["_psd_safe_cholesky was not entered but the model makes cholesky_ex calls"]
+    if len(obs["core_frames"]) != 1:
+        return [f"_psd_safe_cholesky entered {len(obs['core_frames'])} times in one call"]
+    calls = int(mo["calls"])
+    if mo["err"] == "nan":
+        key = ("nan", 0)
+    elif mo["err"] == "ok":
+        key = ("first", 0) if calls == 1 else ("ok", calls - 1)
+    else:
+        key = ("fail", calls - 1)
+    want = sktr.get(key)
+    if want is None:
+        return [f"no skeleton trace for {key}"]
+    got = executed_roles(obs, skeleton)
+    if got != want:
+        k = next((i for i, (x, y) in enumerate(zip(got, want)) if x != y), min(len(got), len(want)))
+        return [f"executed statement order differs from the pinned skeleton at step {k}: executed "
+                f"{got[k] if k < len(got) else '<end>'}, skeleton {want[k] if k < len(want) else '<end>'} (outcome {key})"]
+    return []
+
+
 # --------------------------------------------------------------------------------------------- catalogue
 JITS = {"f32": [1e-5, 1e-4, 1e-3, 1e-2], "f64": [1e-12, 1e-10, 1e-6, 1e-3]}
 JITS_BIG = {"f32": [1e-3, 1e-2], "f64": [1e-10, 1e-6, 1e-3]}
@@ -797,9 +867,24 @@ def translator_crosscheck(chk, ch, se):
         brk("cholesky.py raises classes other than utils.errors.NanError/NotPSDError")
 
 
-def process(chk, cases):
+def process(chk, cases, ch=None):
+    if ch is None:
+        ch, _ = c16_cholesky.extract()
+    skeleton = ch["coreSkeleton"]
     lines = [model_line(c) for c in cases]
-    outs = chk.run_driver("C16", lines)
+    keys, extra = sk_lines()
+    outs_all = chk.run_driver("C16", lines + extra + ["skeleton core", "skeleton wrapper"])
+    outs, sktr = None, {}
+    if outs_all is not None:
+        outs = outs_all[:len(lines)]
+        for key, o in zip(keys, outs_all[len(lines):len(lines) + len(keys)]):
+            if o.startswith("trace="):
+                sktr[key] = [x for x in o[len("trace="):].split("~") if x]
+        # readable diff of the translator's skeleton against the one pinned in Lean (the obligation gen_skeleton_* is the proof)
+        for name, sk, o in (("core", ch["coreSkeleton"], outs_all[-2]), ("wrapper", ch["wrapperSkeleton"], outs_all[-1])):
+            mine = "~".join(f"{d}:{r}" for _, d, r in sk)
+            if o != "skeleton=" + mine:
+                chk.proof_break(f"translator(C16 skeleton {name})", f"source has `{mine}`, the model mirrors `{o[len('skeleton='):]}`")
     for idx, c in enumerate(cases):
         cell = cell_of(c)
         desc = json.dumps({k: c[k] for k in ("mix", "dtype", "batch", "n", "kinds", "mats", "jit_mode", "jit", "tries_mode", "tries",
@@ -829,7 +914,11 @@ def process(chk, cases):
             continue
         if outs is None:
             continue
-        diffs = compare_model(c, obs, parse_model(outs[idx]))
+        mo = parse_model(outs[idx])
+        diffs = compare_model(c, obs, mo)
+        if not diffs:
+            diffs = compare_skeleton(c, obs, mo, sktr, skeleton)
+            chk.count("skeleton-trace:" + ("entered" if obs["core_frames"] else "not-entered"))
         if diffs:
             chk.corr_break(cell, "; ".join(diffs[:3]) + f" | line `{lines[idx][:200]}` -> `{outs[idx][:200]}`", {"case": c})
         else:
@@ -856,10 +945,19 @@ def run(chk):
         "NaN members are placed symmetrically (a NaN only in the strictly upper triangle is never read by cholesky_ex and is returned silently)",
     ]
     translator_crosscheck(chk, ch, se)
+    import inspect
+    from linear_operator.utils import cholesky as cmod
+    try:
+        first = inspect.getsourcelines(cmod._psd_safe_cholesky)[1]
+    except Exception as e:  # noqa: BLE001
+        first = f"unavailable ({type(e).__name__})"
+    if first != ch["coreFirstLine"] or cmod._psd_safe_cholesky.__code__.co_firstlineno != ch["coreFirstLine"]:
+        chk.proof_break("translator(C16 skeleton)", f"_psd_safe_cholesky at run time starts at line {first}, the parsed source at "
+                        f"{ch['coreFirstLine']}: the imported function is not the parsed one")
     chk.prove("LinOp.Properties.C16", ["LinOp/C16", "LinOp/Generated/C16Consts.lean", "LinOp/Core/Parse.lean", "LinOp/Core/Basic.lean"])
     before = reset_settings()
     cases = catalogue(chk.rng, chk.tier)
-    process(chk, cases)
+    process(chk, cases, ch)
     if reset_settings() != before:
         chk.corr_break("C16/harness", "settings leaked out of the cases", None)
 
